@@ -62,6 +62,8 @@ package connectconformance
 //@   //# once requests may be in flight the function only returns after waiting for their callbacks (and then stops the
 //@   //# server, drains its stderr and marks what is left) - except when nothing could be sent at all (set-up failures)
 //@   //# or the server process is gone
+//@   //# a batch that was given up (set-up failure) is not continued: failedToStart is the last thing done before returning
+//@   then_returns "results.failedToStart("
 //@   returns_after "wg.Wait()" unless "results.failedToStart(", "server process terminated unexpectedly"
 //@   assert_at "req.ServerTlsCert = resp.PemCert": meta.useTLS ==> len(resp.PemCert) > 0 //# no request goes to the client of a TLS batch without the server's certificate
 //@   //# the batch only proceeds with a response that was read without any error (an empty or cut-off answer is a setup error)
@@ -89,4 +91,6 @@ package connectconformance
 //@        (typeis(resp.Result, *conformancev1.ClientCompatResponse_Response) ==> unbox(resp.Result, *conformancev1.ClientCompatResponse_Response) != nil) //# oneof wrappers of a decoded message are never nil pointers
 //@   modifies prN, held, atomicI32, map[string]testOutcome, map[string]string, *[]error, []error
 //@   ensures @recorded has(results.outcomes, name)
+//@   //# feedback of a reference client is attributed to the case the response names (first argument = the test name)
+//@   assert_at "call:results.recordSideband("#*: operand(2) == resp.TestName
 //@   ensures @setup err != nil ==> results.outcomes[name].setupError && results.outcomes[name].actualFailure == err
